@@ -154,11 +154,12 @@ def Entry.isDecl : Entry → Bool
   | _ => true
 
 /-- `for name := pkg; name != ""; name = name.Parent()`: the non-empty prefixes, longest first -/
-def prefixesDesc : FullName → List FullName
-  | [] => []
-  | a :: t => (a :: t) :: prefixesDesc (a :: t).dropLast
-termination_by l => l.length
-decreasing_by simp [List.length_dropLast]
+def prefixesAux : Nat → FullName → List FullName
+  | 0, _ => []
+  | fuel + 1, l => if l = [] then [] else l :: prefixesAux fuel l.dropLast
+
+/-- (the loop runs at most `len(components)` times; the fuel makes the definition structural) -/
+def prefixesDesc (l : FullName) : List FullName := prefixesAux l.length l
 
 /-- `rangeTopLevelDescriptors`, as (full name, map value) pairs in the order of the Go loops -/
 def topEntries (f : FileD) : List (FullName × Entry) :=
